@@ -28,7 +28,8 @@ ASSUMPTIONS = ['ref/onion.py + ref/bind.merged_stack are the trusted reading of 
                'pins that an application keeps all of them; the statement is about merging lists)']
 
 PHASES = B.PHASES
-TYPES = {'A': (True, True), 'B': (True, True), 'N': (False, True), 'X': (True, False)}
+TYPES = {'A': (True, True), 'B': (True, True), 'N': (False, True), 'X': (True, False), 'As': (True, True)}
+PARENT = {'As': 'A'}      # 'As' is a subclass of 'A' - a different type all the same
 MW_SCRIPTS = ('raise_before', 'raise_after', 'early', 'swallow', 'replace')
 LEVEL_SEQS = {}
 
@@ -71,9 +72,11 @@ def share_instances(cfg):
 
 def base_cfg(levels, types, subsets, ep_kind, with_render, embedded):
     cfg = {'mws': [], 'endpoint': {'params': []}, 'render': None, 'url': [], 'app_res': [], 'route_res': [],
-           'embedded': embedded}
+           'embedded': embedded, 'sibling': True}
     for i, (lv, t, sub) in enumerate(zip(levels, types, subsets)):
         mw = {'level': lv, 'type': t, 'unique': TYPES[t][0], 'reorderable': TYPES[t][1]}
+        if t in PARENT:
+            mw['parent'] = PARENT[t]
         for ph, on in zip(PHASES, sub):
             mw[ph] = {'params': []} if on else None
         cfg['mws'].append(mw)
@@ -233,6 +236,17 @@ def check_config(acc, h, cfg, layer):
         return
     if res.code != exp['status']:
         acc.violation('C03:status:%s' % res.code, 'status %s, expected %s' % (res.status, exp['status']), case)
+        return
+    # a plain route bound after this one sees the application-level middlewares only
+    sexp = O.simulate(cfg, sibling=True)
+    res, trace = chain.run_request(h, '/sib', 'GET')
+    acc.transitions += 1
+    got = skeleton(trace)
+    want = [tuple(e) for e in sexp['trace']]
+    if res.raised is not None:
+        acc.violation('C03:sibling-raised:%s' % type(res.raised).__name__, 'request to the sibling route raised %r' % (res.raised,), case)
+    elif got != want:
+        acc.violation('C03:sibling-trace', 'a plain route bound after the main route ran %r, expected %r' % (got, want), case)
 
 
 def nshards(tier):
